@@ -13,7 +13,7 @@ pub const RULE: &str = "generated (input, format) string pairs fed to all ten pa
 
 pub const ASSUMPTIONS: &[&str] = &[
     "a panic inside any entry point, an arithmetic overflow under overflow checks, or a call exceeding the 20 s watchdog is a violation; Ok or any Err is acceptance",
-    "class (4): the listed out-of-range fields must give Err from Epoch::from_str, from_gregorian_str and from_format_str with the matching format; hour 24 is not generated; 30/31 February in leap years is the open finding KF-feb30-leap-year",
+    "class (4): the listed out-of-range fields must give Err from Epoch::from_str, from_gregorian_str and from_format_str with the matching format; hour 24 is generated only with a non-zero minute or second (24:00:00 is left open); 30/31 February in leap years is the open finding KF-feb30-leap-year",
     "totality over all strings is not established; inputs up to 64 KiB are tried",
 ];
 
@@ -51,7 +51,11 @@ fn render_any(tok: &str, g: &Greg, sc: usize) -> String {
 }
 
 fn sep_any() -> BS<String> {
-    let chars: Vec<char> = (0x20u8..0x7f).map(|b| b as char).filter(|c| *c != '%').collect();
+    let mut chars: Vec<char> = (0x20u8..0x7f).map(|b| b as char).filter(|c| *c != '%').collect();
+    // multi-byte separators (2, 3 and 4 bytes), repeated so that about one separator in five is non-ASCII
+    for _ in 0..4 {
+        chars.extend(['é', 'μ', '\u{a0}', '€', '２', '𝄞']);
+    }
     let one = prop::sample::select(chars);
     prop_oneof![2 => Just(String::new()), 5 => one.clone().prop_map(|c| c.to_string()), 2 => (one.clone(), one).prop_map(|(a, b)| format!("{a}{b}")), 1 => Just("?".to_string()), 1 => Just("? ".to_string())].boxed()
 }
@@ -136,6 +140,20 @@ fn iso_valid() -> BS<String> {
         .boxed()
 }
 
+/// well-formed date-times whose year sits at the limits of i32 / of the representable range, on the days and
+/// times where the validity rules branch (end of June / December at 23:59, where the leap-second years are consulted)
+fn extreme_year_valid() -> BS<String> {
+    (
+        prop::sample::select(vec![2_147_483_647i64, 2_147_483_646, 2_147_483_648, 5_879_610, 5_879_611, 5_879_612, 3_276_700, 3_276_800, 99_999, 10_000, 32_767, 65_536]),
+        prop::sample::select(vec![(12u32, 31u32), (6, 30), (1, 1), (2, 29), (12, 30)]),
+        prop::sample::select(vec![(23u32, 59u32, 0u32), (23, 59, 59), (23, 59, 60), (0, 0, 0), (12, 0, 0)]),
+        any::<bool>(),
+        prop_oneof![Just(""), Just(" UTC"), Just(" TAI"), Just("Z"), Just(" ET")],
+    )
+        .prop_map(|(y, (m, d), (hh, mm, ss), neg, suffix)| format!("{}{}-{:02}-{:02}T{:02}:{:02}:{:02}{}", if neg { "-" } else { "" }, y, m, d, hh, mm, ss, suffix))
+        .boxed()
+}
+
 fn numeric_valid() -> BS<String> {
     (prop::sample::select(vec!["JD", "MJD", "SEC"]), -4_000_000.0f64..8_000_000.0, 0usize..9, any::<bool>())
         .prop_map(|(p, x, sc, int)| format!("{} {} {}", p, if int { x.trunc() } else { x }, SCALE_NAMES[sc]))
@@ -178,6 +196,7 @@ fn valid_case() -> BS<Case> {
     wunion(vec![
         (4, pair_valid().prop_map(|(f, s)| Case { s, f, must_reject: false }).boxed()),
         (3, (iso_valid(), 0usize..12).prop_map(|(s, k)| Case { s, f: CONST_FORMATS[k].to_string(), must_reject: false }).boxed()),
+        (1, (extreme_year_valid(), any::<bool>()).prop_map(|(s, t)| Case { f: if t { "%Y-%m-%dT%H:%M:%S".to_string() } else { "%Y-%m-%dT%H:%M:%S %T".to_string() }, s, must_reject: false }).boxed()),
         (2, (numeric_valid(), 0usize..12).prop_map(|(s, k)| Case { s, f: CONST_FORMATS[k].to_string(), must_reject: false }).boxed()),
         (2, (duration_valid(), 0usize..12).prop_map(|(s, k)| Case { s, f: CONST_FORMATS[k].to_string(), must_reject: false }).boxed()),
         (1, (word_valid(), word_valid()).prop_map(|(s, w)| Case { s, f: format!("%B %A %T {}", w), must_reject: false }).boxed()),
@@ -186,7 +205,7 @@ fn valid_case() -> BS<Case> {
 
 // ---------------------------------------------------------------- mutations
 const PAYLOAD: [&str; 60] = [
-    "２", "٣", "μ", "é", "€", "𝄞", "\u{200b}", "\u{7f}", "-", "+", ".", ":", "T", "Z", " ", "  ", "\t", "\n", "\u{0}", "e400", "1e400", "1e-400", "inf", "nan", "NaN", "infinity", "-inf", "%", "?", "%%", "%Q", "%w", "%y", "%J", "%z", "%T", "0", "9", "60", "24", "13", "32", "99", "999999999999", "2147483648", "-2147483648", "JD", "MJD", "SEC", "UTC", "TAI", "GPST", "QZSST", "January", "Mon", "days", "ns", "h", "μs", ",",
+    "２", "٣", "μ", "é", "€", "𝄞", "\u{200b}", "\u{7f}", "-", "+", ".", ":", "T", "Z", " ", "  ", "\t", "\n", "\u{0}", "e400", "1e400", "1e-400", "inf", "nan", "NaN", "infinity", "-inf", "%", "?", "%%", "%Q", "%w", "%y", "%J", "%z", "%T", "0", "9", "60", "24", "13", "32", "99", "999999999999", "2147483647", "-2147483648", "JD", "MJD", "SEC", "UTC", "TAI", "GPST", "QZSST", "January", "Mon", "days", "ns", "h", "μs", ",",
 ];
 
 #[derive(Clone, Debug)]
@@ -280,7 +299,17 @@ fn reject_case() -> BS<Case> {
                     m = 2;
                     d = 30 + r % 2;
                 }
-                4 => hh = 25 + r % 75,
+                4 => {
+                    if r % 4 == 0 {
+                        // hour 24 with a non-zero minute or second denotes no time of day under any reading
+                        hh = 24;
+                        if mm == 0 && ss == 0 {
+                            mm = 1 + r % 59;
+                        }
+                    } else {
+                        hh = 25 + r % 75;
+                    }
+                }
                 5 => mm = 60 + r % 40,
                 6 => ss = 61 + r % 39,
                 _ => {
